@@ -9,6 +9,10 @@ import (
 // runKmsz: the size limit that applies to the frame after a Tversion is the one that Tversion
 // negotiated (C02: "a size field above msize ends the connection without reading the body").
 // Tversion(msize) ... Rversion, then one Twalk frame of a chosen length: answered iff it fits.
+func le32at(b []byte, i int) uint32 {
+	return uint32(b[i]) | uint32(b[i+1])<<8 | uint32(b[i+2])<<16 | uint32(b[i+3])<<24
+}
+
 func runKmsz(r *rng, n int) {
 	for i := 0; i < n; i++ {
 		be := newBackend(&rng{s: r.next()}, 0, 0, false)
@@ -23,10 +27,13 @@ func runKmsz(r *rng, n int) {
 			return w.b
 		}
 		ok := true
+		ann := [2]uint32{}
 		for k, ms := range []uint64{first, second} {
 			p.write(frame(100, uint16(k+1), map[string]interface{}{"MSize": ms, "Version": "9P2000.L"}))
-			if f, err := p.readFrame(5 * time.Second); err != nil || f[4] != 101 {
+			if f, err := p.readFrame(5 * time.Second); err != nil || f[4] != 101 || len(f) < 11 {
 				ok = false
+			} else {
+				ann[k] = le32at(f, 7)
 			}
 		}
 		if !ok {
@@ -49,6 +56,6 @@ func runKmsz(r *rng, n int) {
 			reply = 1
 		}
 		p.close()
-		emit("kmsz first=%d second=%d len=%d => reply=%d", first, second, len(fr), reply)
+		emit("kmsz first=%d second=%d len=%d => ann1=%d ann2=%d reply=%d", first, second, len(fr), ann[0], ann[1], reply)
 	}
 }
